@@ -21,6 +21,7 @@ import (
 	"fmt"
 	"math"
 	"os"
+	"strings"
 	"sync/atomic"
 	"time"
 
@@ -401,6 +402,12 @@ func main() {
 		replay(r)
 		r.Finish()
 	}
+	if _, _, child := r.Child(); child {
+		// the cancel-store rounds run in a child process: a store whose locking is broken corrupts memory (torn
+		// slice headers) and may take the whole process down, which must not cost the other parts their verdicts
+		runStore(r)
+		r.Finish()
+	}
 
 	// real-time stress first: runners that do not return stay parked and are judged at the very end,
 	// once the generous wall-clock bound has elapsed (the bound only decides when to look, never the verdict)
@@ -421,7 +428,26 @@ func main() {
 	part("realtime", func() { rt = startRealtime(r) })
 	part("sweep", func() { runSweep(r) })
 	part("parallelise", func() { runParallelise(r) })
-	part("store", func() { runStore(r) })
+	part("store", func() {
+		r.OnChildFailure = func(progress, output string) bool {
+			// This child executes nothing but harness code (race-free: atomics and happens-before through WaitGroups,
+			// no unsafe) and the store operations. A crash inside a store operation, or a memory-corruption crash of
+			// the runtime (torn slice header / bad heap pointer), is therefore attributed to the store.
+			if p := os.Getenv("C12_DEBUG_CHILD"); p != "" {
+				_ = os.WriteFile(p, []byte(output), 0o644)
+			}
+			inStore := strings.Contains(output, "parallelisation.(*CancelFunctionStore)") && (strings.Contains(output, "fatal error:") || strings.Contains(output, "panic:"))
+			corrupt := strings.Contains(output, "found bad pointer in Go heap") || strings.Contains(output, "found pointer to free object") || strings.Contains(output, "marked free object in span") || strings.Contains(output, "unexpected fault address") || strings.Contains(output, "fatal error: fault")
+			if inStore || corrupt {
+				r.Violation(vrun.Sig{"ep": "CancelFunctionStore", "effect": "crash-in-store-operation"},
+					"the process running concurrent Register/Cancel/Len on one store crashed (inside a store operation or with runtime memory corruption)",
+					map[string]any{"last_round": progress, "output_head": trunc(output, 3000), "deterministic": false})
+				return true
+			}
+			return false
+		}
+		r.SpawnChildren(1, 1, nil, time.Duration(r.Pick(5, 20))*time.Minute)
+	})
 	part("realtime", func() { rt.judgeStragglers(r) })
 
 	r.Require("sweep_cases", int64(r.Pick(150_000, 5_000_000)))
@@ -442,6 +468,13 @@ func main() {
 	r.Require("store_registers_overlapping_cancel", 100)
 	r.Require("distinct_nontrivial", 1_000)
 	r.Finish()
+}
+
+func tail(s string, n int) string {
+	if len(s) > n {
+		return s[len(s)-n:]
+	}
+	return s
 }
 
 func replay(r *vrun.Run) {
